@@ -187,7 +187,7 @@ def run_case(ctx, name, params):
         if len(ar) != n:
             ctx.violation("add/content/antichain", "antichain not fully retained", {"n": n, "len": len(ar)})
             return
-        size = r.randint(1, n + 3)
+        size = r.choice([0, 1, n, r.randint(0, n + 3), r.randint(1, n + 3)])
         larger = r.random() < 0.8
         before = list(ar)
         try:
